@@ -2299,7 +2299,9 @@ where
     input: R,
     encoding: Encoding,
     abbreviations: &'abbrev Abbreviations,
-    end_offset: UnitOffset<R::Offset>,
+    /// The offset of the initial `input`, and the length of the initial `input`.
+    start_offset: UnitOffset<R::Offset>,
+    start_len: R::Offset,
     depth: isize,
 }
 
@@ -2318,12 +2320,13 @@ impl<'abbrev, R: Reader> EntriesRaw<'abbrev, R> {
         abbreviations: &'abbrev Abbreviations,
         offset: UnitOffset<R::Offset>,
     ) -> Self {
-        let end_offset = UnitOffset(offset.0 + input.len());
+        let start_len = input.len();
         EntriesRaw {
             input,
             encoding,
             abbreviations,
-            end_offset,
+            start_offset: offset,
+            start_len,
             depth: 0,
         }
     }
@@ -2357,7 +2360,12 @@ impl<'abbrev, R: Reader> EntriesRaw<'abbrev, R> {
     /// If you want the offset of the next entry, then this must be called prior to reading
     /// the next entry.
     pub fn next_offset(&self) -> UnitOffset<R::Offset> {
-        UnitOffset(self.end_offset.0 - self.input.len())
+        // `start_offset` may be any value, so this must not overflow.
+        UnitOffset(
+            self.start_offset
+                .0
+                .wrapping_add(self.start_len - self.input.len()),
+        )
     }
 
     /// Return the depth of the next entry.
